@@ -192,3 +192,5 @@ for _pid in ("C01", "C02", "C04", "C13"):
 REGISTRY["C02"]["module_groups"] = [["sm"], ["smdef"], ["tunable"]]
 REGISTRY["C09"]["module_groups"] = [["tunable"], ["inject", "robotinit"]]
 REGISTRY["C11"]["module_groups"] = REGISTRY["C11"]["module_groups"] + [["inject", "robotinit"]]
+for _pid in ("C01", "C02", "C04", "C13"):
+    REGISTRY[_pid]["standins"]["quick"]["bounded: small-scope class definitions through the real decorators/_build_states (which definition of an inherited, redefined state wins; first/default flags)"] = [PY, "native/replay_c12.py"]
